@@ -28,18 +28,23 @@ BASE = peg.G([
     ('rule', 'Use', None, ('let', 'kvar', ('ref', 'Tok'), ('seq', [
         ('right', ('lit', '-'), ('call', 'Pair', [('ref', 'Tok'), ('py', '1')], [])), ('py', 'kvar'),
         ('right', ('lit', '-'), ('where', ('ref', 'Tok'), ('py', 'lambda v: v != kvar')))]))),
+    ('class', 'Rep', ['npar', 'mpar'], [('field', 'cells', ('rep', ('lit', 'a'), 'npar', 'npar')), ('field', 'tagr', ('py', '(npar, mpar)'))]),
     ('rule', 'Lst', None, ('sep', ('choice', [('ref', 'Box'), ('ref', 'Tok')]), ('lit', ','), False, True, True, False)),
     ('rule', 'start', None, ('seq', [('ref', 'Box'), ('lit', ';'),
                                      ('call', 'Gen', [('choice', [('ref', 'Tok'), ('ref', 'Num')]), ('py', '"w"')], []),
-                                     ('lit', ';'), ('ref', 'Use'), ('opt', ('right', ('lit', ';'), ('ref', 'Lst')))])),
+                                     ('lit', ';'), ('ref', 'Use'), ('opt', ('right', ('lit', ';'), ('ref', 'Lst'))),
+                                     ('opt', ('right', ('lit', '#'), ('call', 'Rep', [('py', '2'), ('py', '"m"')], [])))])),
 ])
 ROLES = {'rule': 'Tok', 'rule2': 'Use', 'template': 'Pair', 'class': 'Box', 'pclass': 'Gen', 'field': 'first',
          'field2': 'third', 'letfield': 'hidden', 'param_parser': 'ppar', 'param_value': 'vpar', 'cparam_parser': 'qpar',
-         'cparam_value': 'wpar', 'letvar': 'kvar'}
-CLASS_ROLES = ('class', 'pclass')
+         'cparam_value': 'wpar', 'letvar': 'kvar', 'vclass': 'Rep', 'vcparam1': 'npar', 'vcparam2': 'mpar'}
+CLASS_ROLES = ('class', 'pclass', 'vclass')
 FIELD_ROLES = ('field', 'field2')
 INPUTS = ['ab2aa;b;ab-ba-a', 'ab2aa;3;ab-b-a;a1a,b,', 'a0;a;b-a-ab', 'ab2aa;b;ab-ba-ab', 'a1a;b;a-a-b;b3aaa,a', '', 'ab',
-          'a1a;;', 'a1a;b;a-a', 'b9;a;a-b-b']
+          'a1a;;', 'a1a;b;a-a', 'b9;a;a-b-b', 'a1a;b;a-a-b#aa', 'a1a;b;a-a-b;b#a']
+# every kind of entry point (the renamed name is looked up through the renaming)
+ENTRY_CALLS = [('Tok', None, ['ab', 'abZ', '']), ('Use', None, ['ab-ba-a', 'a-a-a']), ('Box', None, ['ab2aa', 'a0', 'b9']),
+               ('Lst', None, ['a1a,b,', 'b']), ('Rep', (2, 'm'), ['aa', 'a', 'aaa']), ('Rep', (0, None), ['', 'a'])]
 API = ('parse', 'Infix', 'Prefix', 'Postfix', 'ParseError', 'PartialParseError', 'InputError', 'ParsedObject', 'ParsingRule',
        'visit', 'traverse', 'transform')
 TEMP_BASES = ['value', 'item', 'staging', 'checkpoint', 'backtrack', 'farthest_pos', 'farthest_err', 'arg', 'func', 'match',
@@ -82,15 +87,37 @@ def suspicious_names():
         except tokenize.TokenError:
             pass
     out = sorted(set(n for n in names if n.isidentifier() and not keyword.iskeyword(n) and not n.startswith('_')
-                     and n not in API and n not in ROLES.values() and n not in ('Num', 'Lst')))
+                     and n not in API and n not in ROLES.values() and n not in ('Num', 'Lst', 'second', 'item', 'tag', 'cells', 'tagr')))
     return out
 
 
-def outcomes(g):
+def outcomes(g, mapping=None):
     mod, err = sut.compile_grammar(peg.render(g))
     if mod is None:
         return ('COMPILE',) + tuple(err[:2])
-    return tuple(sut.run(mod, None, t, budget=3.0) for t in INPUTS)
+    hung = [False]
+
+    def run(*a, **kw):
+        # after the first hang the remaining calls are not made (each would cost the full budget)
+        if hung[0]:
+            return ('SKIPPED-AFTER-HANG',)
+        o = sut.run(*a, **kw)
+        if o[0] == 'HANG':
+            hung[0] = True
+        return o
+    out = [run(mod, None, t, budget=3.0) for t in INPUTS]
+    mapping = mapping or {}
+    for name, args, texts in ENTRY_CALLS:
+        try:
+            obj = getattr(mod, mapping.get(name, name))
+            fn = obj.parse(*args) if args is not None else obj.parse
+        except Exception as e:
+            out.extend([('EXC', 'entry:' + type(e).__name__)] * len(texts))
+            continue
+        for t in texts:
+            out.append(run(mod, None, t, budget=3.0, fn=fn))
+            out.append(run(mod, None, 'zz' + t, 2, False, budget=3.0, fn=fn))
+    return tuple(out)
 
 
 _base_out = None
@@ -109,7 +136,7 @@ def check_pair(role, new):
     """None if renaming ROLES[role] -> new changes nothing but names, else a short description."""
     old = ROLES[role]
     g = renaming.rename_grammar(BASE, {old: new})
-    out = outcomes(g)
+    out = outcomes(g, {old: new})
     cm = {old: new} if role in CLASS_ROLES else {}
     fm = {old: new} if role in FIELD_ROLES else {}
     want = tuple((o[0], renaming.map_canon(o[1], cm, fm)) + tuple(o[2:]) if o[0] in ('OK', 'PARTIAL') else o
@@ -118,7 +145,9 @@ def check_pair(role, new):
         return None
     if out[0] == 'COMPILE':
         return 'Grammar() raises %s' % (out[2] if len(out) > 2 else out[1])
-    for t, o, w in zip(INPUTS, out, want):
+    labels = list(INPUTS) + ['%s.parse%s(%r%s)' % (n, '' if a is None else repr(a), t, k) for n, a, ts in ENTRY_CALLS
+                             for t in ts for k in ('', ', pos=2, fullparse=False')]
+    for t, o, w in zip(labels, out, want):
         if o != w:
             return 'parse(%r) -> %s instead of %s' % (t, ':'.join(str(x)[:60] for x in o[:2]), w[0])
     return 'differs'
@@ -193,11 +222,11 @@ def grammar_names(g):
 class C20(Check):
     id = 'C20'
     technique = 'PBT: exhaustive role x suspicious-name matrix on a feature-rich grammar + hypothesis random grammars x random injective renamings; rename relation on the AST (inline Python renamed by tokenising)'
-    rule = ('cases = (grammar, injective renaming, input); (i) matrix: each of 13 roles (rule, rule used as argument, template, '
-            'class, class with parameters, two fields, let field, parser/value parameter of a rule and of a class, let variable) '
+    rule = ('cases = (grammar, injective renaming, input); (i) matrix: each of 16 roles (rule, rule used as argument, template, '
+            'class, class with parser parameters, class with value parameters, two fields, let field, parser/value parameters of a rule and of classes, let variable) '
             'of a fixed feature-rich grammar renamed to each of ~500 suspicious names: every identifier occurring in the module generated for that grammar, every temporary base the generator '
             'allocates with suffix 0-6, every Python builtin, every global of a generated module, every attribute of '
-            'sourcer.expressions, DSL words, self/text/pos/Start, parse_<rule>/try_<rule>-style names; outcomes on 10 inputs '
+            'sourcer.expressions, DSL words, self/text/pos/Start, parse_<rule>/try_<rule>-style names; outcomes of module-level parse on 12 inputs and of every kind of entry point (R.parse, C.parse, C.parse(args)(text), with pos and fullparse) '
             'must equal the unrenamed outcomes with class/field names mapped. Pairs that fail on the pinned tree are listed in '
             'known_c20_pairs.json (known findings F21a-f) and any other failing pair is a violation. (ii) hypothesis: rich '
             'grammars with ALL user names renamed at once through a random injective map into neutral names and look-alikes '
